@@ -17,6 +17,15 @@ Generator families per tag type
             fails at the k-th APDU (silent, error status word, cut answer),
             exhaustively over k, failure mode and a grid of configurations
 
+  leaves-field  the memory-backed tags of the *-mem families under the real
+            ContactlessFrontend (clf.sense() that finds nothing clears the
+            captured target, exchange() without target returns None) which
+            leave the field at a generated point of the session - commands
+            and the polls of the library's own re-activation attempts are
+            counted alike - and a tag object that is probed several times
+            (tag.ndef again, has_changed of an NDEF object obtained before,
+            is_present); the oracle below applies to every evaluation
+
 Oracle: nfc.tag.activate() returns None or a Tag; tag.ndef, and on an NDEF
 object length / capacity / octets / has_changed, return without any
 exception; the number of commands stays within a budget derived from the
@@ -45,6 +54,9 @@ ASSUMPTIONS = [
     "declared Nmaxb + 100; T4T 300 + 3 x declared file size (capped by the "
     "physical file + 600) - beyond that the reader counts as looping",
     "simulators as in C01",
+    "leaves-field leg: a tag that left the field answers neither polls nor "
+    "commands and keeps its memory; tag.is_present is evaluated under the "
+    "same no-exception / bounded-commands oracle (its value is not judged)",
 ]
 
 byte = st.integers(0, 255)
@@ -170,7 +182,7 @@ def t12_case(desc):
         "phys_cut": st.sampled_from([0, 0, 0, 8, 16, 64])})
 
 
-def run_t12(case, ctx):
+def run_t12(case, ctx, runner=None):
     desc = case["tag"]
     bump = case.get("len_bump", 0)
     b = tc.build(desc, ["cap", 0] if bump else case["old"], case["old_seed"])
@@ -227,7 +239,7 @@ def run_t12(case, ctx):
         check = None
     else:
         check = lambda o: subsequence(o, data)      # noqa: E731
-    probe(ctx, b.tag, budget, area=area, check_octets=check)
+    (runner or probe)(ctx, b.tag, budget, area=area, check_octets=check)
 
 
 # ------------------------------------------------------------ T3T memory
@@ -249,7 +261,7 @@ def t3_case():
         "with_sc": st.booleans()})
 
 
-def run_t3(case, ctx):
+def run_t3(case, ctx, runner=None):
     desc = case["tag"]
     b = tc.build(desc, case["old"], case["old_seed"])
     a = b.tag.blocks[0]
@@ -280,9 +292,10 @@ def run_t3(case, ctx):
             case["syscode"] in ("12FC",):
         ctx.nontrivial()
     data = b"".join(bytes(x) for x in b.tag.blocks[1:1 + nmaxb])
-    probe(ctx, b.tag, nmaxb + 100, area=nmaxb * 16,
-          check_octets=lambda o: None if data.startswith(o) else
-          "octets are not the leading bytes of blocks 1..Nmaxb")
+    (runner or probe)(
+        ctx, b.tag, nmaxb + 100, area=nmaxb * 16,
+        check_octets=lambda o: None if data.startswith(o) else
+        "octets are not the leading bytes of blocks 1..Nmaxb")
 
 
 # ------------------------------------------------------------ T4T memory
@@ -331,7 +344,7 @@ def t4_case():
                       st.integers(1, 20)))})
 
 
-def run_t4(case, ctx):
+def run_t4(case, ctx, runner=None):
     desc = case["tag"]
     nl = 4 if desc["ver"] >> 4 == 3 else 2
     cap = desc["fsize"] - nl
@@ -393,9 +406,10 @@ def run_t4(case, ctx):
             return None       # the card itself invents bytes
         return None if data[n:n + len(o)] == o else \
             "octets are not bytes of the NDEF file behind NLEN"
-    probe(ctx, tag, budget, dev_kw={"max_send": desc["max_send"],
-                                    "max_recv": desc["max_recv"]},
-          area=area, check_octets=check)
+    (runner or probe)(ctx, tag, budget,
+                      dev_kw={"max_send": desc["max_send"],
+                              "max_recv": desc["max_recv"]},
+                      area=area, check_octets=check)
 
 
 # ------------------------------------ T4T: card fails at the k-th APDU
@@ -511,6 +525,241 @@ def run_failat(case, ctx):
     else:
         ctx.label("failure-not-reached/%s" % ("ndef-object" if seen else
                                               "None"))
+
+
+# ------------- memory-backed tags that leave the field + repeated probing
+class Vanishing(object):
+    """a tag simulator that is out of the field from its ``at``-th event on,
+    for ``span`` events (0 = for good).  Events are counted over everything
+    the reader does with the tag: polls (target(), i.e. every activation and
+    re-activation attempt; event 0 is the first activation) and commands.
+    While the tag is away polls find nothing and commands get no answer;
+    the memory keeps its content.  ``events`` logs (kind, refused) with
+    refused = no answer / NAK / Type 3 error status."""
+
+    def __init__(self, inner, at=None, span=0):
+        self.inner = inner
+        self.at, self.span = at, span
+        self.events = []
+
+    def __getattr__(self, name):
+        return getattr(self.inner, name)
+
+    def away(self):
+        i = len(self.events)
+        if self.at is None or i < self.at:
+            return False
+        return self.span == 0 or i < self.at + self.span
+
+    def target(self, poll):
+        r = None if self.away() else self.inner.target(poll)
+        self.events.append(("poll", r is None))
+        return r
+
+    def command(self, cmd, timeout=None):
+        r = None if self.away() else self.inner.command(cmd, timeout)
+        self.events.append(("cmd", _refused(self.inner.tech, r)))
+        return r
+
+    def reset(self):
+        self.inner.reset()
+
+
+def _refused(tech, r):
+    if r is None:
+        return True
+    if tech == "F":
+        return len(r) >= 12 and r[1] in (0x07, 0x09) and r[10] != 0
+    return len(r) == 1 and r[0] & 0xFA == 0x00          # Type 2 NAK
+
+
+def check_ndef(ndef, area, check_octets):
+    try:
+        length, cap, octets = ndef.length, ndef.capacity, ndef.octets
+    except Exception as e:
+        raise unexpected(e, "ndef-attribute-raises")
+    if length != len(octets):
+        raise Violation("length-inconsistent", "%d vs %d"
+                        % (length, len(octets)))
+    if length > cap:
+        raise Violation("length-exceeds-capacity",
+                        "length %d capacity %d" % (length, cap))
+    if area is not None and cap > area:
+        raise Violation("capacity-exceeds-data-area",
+                        "capacity %d, declared data area %d" % (cap, area))
+    if check_octets is not None:
+        err = check_octets(octets)
+        if err:
+            raise Violation("octets-outside-data-area", err)
+
+
+def probe_seq(ctx, sim, budget, probes, dev_kw=None, area=None,
+              check_octets=None):
+    """activate, evaluate tag.ndef and then every entry of ``probes`` on the
+    same tag object under the C08 oracle:
+      ndef     tag.ndef again (and length / capacity / octets of the result)
+      changed  has_changed of the NDEF object seen last (also when tag.ndef
+               turned None since), then tag.ndef
+      present  tag.is_present
+    No evaluation may raise, each stays within the command budget, every
+    NDEF object obeys length <= capacity <= data area and octets inside the
+    data area, is_present yields a bool.  Returns the index of the sim event
+    at which every evaluation started."""
+    total = (len(probes) + 2) * budget + 20
+    clf = tagdev.frontend(sim, budget=total, **(dev_kw or {}))
+    starts = []
+    try:
+        target = clf.sense(tagdev.sense_target(sim))
+        if target is None:
+            ctx.label("not-sensed")
+            return starts
+        try:
+            tag = nfc.tag.activate(clf, target)
+        except Exception as e:
+            raise unexpected(e, "activate-raises")
+        if tag is None:
+            ctx.label("activate->None")
+            return starts
+        ctx.label("activated:" + type(tag).__name__)
+        held = None
+        for i, p in enumerate(["ndef"] + list(probes)):
+            starts.append(len(sim.events))
+            n0 = clf.device.exchanges
+            if p == "ndef":
+                try:
+                    n = tag.ndef
+                except Exception as e:
+                    raise unexpected(e, "ndef-raises" if i == 0 else
+                                     "ndef-again-raises",
+                                     detail="evaluation %d" % i)
+                ctx.label("%s:ndef->%s" % ("first" if i == 0 else "again",
+                                           "None" if n is None else "object"))
+                if n is not None:
+                    check_ndef(n, area, check_octets)
+                    held = n
+            elif p == "changed":
+                if held is None:
+                    ctx.label("changed:no-ndef-object-so-far")
+                    continue
+                try:
+                    changed = held.has_changed
+                    n = tag.ndef
+                except Exception as e:
+                    raise unexpected(e, "has-changed-raises",
+                                     detail="evaluation %d" % i)
+                ctx.label("changed->%s" % changed)
+                if n is not None:
+                    check_ndef(n, area, check_octets)
+                    held = n
+            else:
+                try:
+                    r = tag.is_present
+                except Exception as e:
+                    raise unexpected(e, "is-present-raises",
+                                     detail="evaluation %d" % i)
+                if r is not True and r is not False:
+                    raise Violation("is-present-not-bool", repr(r))
+                ctx.label("present->%s" % r)
+            if clf.device.exchanges - n0 > budget:
+                raise Violation("unbounded-commands",
+                                "evaluation %d (%s) took %d commands, budget "
+                                "%d" % (i, p, clf.device.exchanges - n0,
+                                        budget))
+    except tagdev.BudgetExceeded:
+        raise Violation("unbounded-commands", "more than %d commands" % total)
+    return starts
+
+
+class _NullCtx(object):
+    label = nontrivial = set_class = note = lambda self, *a: None
+
+
+MEM_RUN = {}            # type -> run function (filled below the strategies)
+
+
+def vanish_case():
+    def nak_prone(d):
+        # Type 2: no physical memory behind the declared data area, so a
+        # length field that overshoots makes the reader address a page the
+        # tag does not have (NAK)
+        return dict(d, extra=0)
+    mem = {
+        "t2t": t12_case(st.one_of(tc.t2t_desc(), tc.t2t_desc().map(nak_prone))),
+        "t1t": t12_case(tc.t1t_desc()),
+        "t3t": t3_case(), "t4t": t4_case()}
+    at = st.one_of(
+        st.tuples(st.just("abs"), st.one_of(st.integers(0, 12),
+                                            st.integers(0, 80))),
+        st.tuples(st.just("ref"), st.integers(0, 5),
+                  st.sampled_from([0, 0, 0, 1, 2])),
+        st.tuples(st.just("eval"), st.integers(1, 4), st.integers(0, 5)))
+    return st.sampled_from(["t2t"] * 4 + ["t1t", "t3t", "t3t", "t4t", "t4t"]
+                           ).flatmap(lambda k: st.fixed_dictionaries({
+                               "type": st.just(k), "mem": mem[k], "at": at,
+                               "plain": st.sampled_from([False, False, True]),
+                               "span": st.sampled_from([0, 0, 0, 1, 2, 3, 6]),
+                               "probes": st.lists(st.sampled_from(
+                                   ["ndef", "ndef", "changed", "present"]),
+                                   min_size=1, max_size=4)}))
+
+
+def run_vanish(case, ctx):
+    kind, probes = case["type"], case["probes"]
+    run_mem = MEM_RUN[kind]
+    ctx.set_class("%s-mem/leaves-field" % kind)
+    if case.get("plain"):
+        # the valid layout itself (a length field that overshoots is kept)
+        keep = ("tag", "old", "old_seed", "len_bump", "syscode", "with_sc")
+        plain = {"pokes": [], "phys_cut": 0, "cc_extra": 0, "cc_trunc": 0,
+                 "bad_checksum": False}
+        case = dict(case, mem=dict(
+            (f, v if f in keep else plain.get(f)) for f, v in
+            case["mem"].items()))
+        ctx.label("image:valid-layout")
+    # the same tag and the same evaluations with the tag staying in the
+    # field: number of events and where the tag refused something
+    ref = {}
+
+    def rehearsal(c, sim, budget, **kw):
+        ref["sim"] = v = Vanishing(sim)
+        ref["starts"] = probe_seq(c, v, budget, probes, **kw)
+    run_mem(case["mem"], _NullCtx(), runner=rehearsal)
+    if "sim" not in ref:
+        ctx.label("layout-without-room")
+        return
+    events = ref["sim"].events
+    refusals = [i for i, (k, refused) in enumerate(events) if refused]
+    at = case["at"]
+    if at[0] == "ref" and refusals:
+        k = refusals[at[1] % len(refusals)] + 1 + at[2]
+        ctx.label("leaves:%d-after-refusal" % at[2])
+    elif at[0] == "eval" and len(ref["starts"]) > 1:
+        later = ref["starts"][1:]
+        k = later[(at[1] - 1) % len(later)] + at[2]
+        ctx.label("leaves:with-a-later-evaluation")
+    else:
+        k = 1 + at[1] % max(1, len(events))
+        ctx.label("leaves:absolute")
+    span = case["span"]
+    out = {}
+
+    def real(c, sim, budget, **kw):
+        c.set_class("%s-mem/leaves-field" % kind)
+        out["sim"] = v = Vanishing(sim, k, span)
+        out["starts"] = probe_seq(c, v, budget, probes, **kw)
+    run_mem(case["mem"], ctx, runner=real)
+    n = len(out["sim"].events)
+    ctx.label("away:" + ("for-good" if span == 0 else "%d-events" % span))
+    if k < n:
+        ctx.label("left-during:" + events[k][0] if k < len(events)
+                  else "left-during:cmd")
+        # evaluations that started after the tag had left
+        later = [s for s in out["starts"] if s > k]
+        if later:
+            ctx.nontrivial()
+    else:
+        ctx.label("never-left")
+    ctx.note({"events": n, "leaves_at": k, "refusals": len(refusals)})
 
 
 # --------------------------------------------------------------- scripted
@@ -722,6 +971,9 @@ def _script_leg(kind, q, t):
                     % kind)
 
 
+MEM_RUN.update({"t2t": run_t12, "t1t": run_t12, "t3t": run_t3,
+                "t4t": run_t4})
+
 LEGS = [
     _mem_leg("t2t-mem", t12_case(tc.t2t_desc()), run_t12, 1500, 40000),
     _mem_leg("t1t-mem", t12_case(tc.t1t_desc()), run_t12, 1500, 40000),
@@ -732,6 +984,26 @@ LEGS = [
     _script_leg("t3t", 800, 30000),
     _script_leg("t4a", 800, 30000),
     _script_leg("t4b", 600, 20000),
+    Leg("leaves-field", run=run_vanish, gen=lambda tier: vanish_case(),
+        quick=2400, thorough=50000, shards_quick=4, shards_thorough=16,
+        nt_floor=0.2,
+        rule="memory-backed tag of any type with a mutated image (the "
+             "generators of the *-mem legs; Type 2 half of the time without "
+             "physical memory behind the declared data area; one third of "
+             "the images the valid layout without mutations) under the real "
+             "ContactlessFrontend, that leaves the field at a generated "
+             "point of the whole session - counted over commands AND the "
+             "polls of every (re-)activation attempt; either an absolute "
+             "position or 0..2 events after the j-th refusal (NAK / error "
+             "status / no answer) the tag gives in a rehearsal without "
+             "leaving, or 0..5 events into one of the later evaluations - "
+             "for good or for 1..6 events; the same tag object is "
+             "then probed 2-5 times in all: tag.ndef (+ length, capacity, "
+             "octets), has_changed of the NDEF object seen last followed by "
+             "tag.ndef, tag.is_present.  C08 oracle on every evaluation: "
+             "none raises, command budget per evaluation, NDEF objects "
+             "inside the data area, is_present a bool.  non-trivial = at "
+             "least one evaluation started after the tag had left."),
     Leg("t4t-failat", run=run_failat, enum=failat_enum, exhaustive=True,
         shards_quick=4, shards_thorough=8,
         rule="memory-backed Type 4A/4B tag with a valid NDEF application "
